@@ -30,7 +30,25 @@ def itoa_table():
           'def itoaTable : List Nat := [%s]\n\ndef itoaMid : Nat := %d\n' % (mid, ', '.join(str(ord(c)) for c in tab), mid))
 
 
-ALL = dict(itoa_table=itoa_table)
+def mon_days():
+    s = _src('include/fix8/field.hpp')
+    m = re.search(r'static const int mon_days\[\]\s*\{([^}]*)\}', s)
+    if not m:
+        raise FactError('mon_days table not found in include/fix8/field.hpp')
+    vals = []
+    for e in m.group(1).split(','):
+        e = e.strip()
+        if not re.fullmatch(r'[\d\s+]+', e):
+            raise FactError('unexpected mon_days entry %r' % e)
+        vals.append(sum(int(x) for x in e.split('+')))
+    m2 = re.search(r'return static_cast<time_t>\(tdays\) \* (\d+) \+ \(ltm\.tm_hour \+ utcdiff\) \* (\d+) \+ ltm\.tm_min \* (\d+) \+ ltm\.tm_sec;', s)
+    if not m2:
+        raise FactError('time_to_epoch return expression not recognised')
+    _emit('MonDays', '/-- `mon_days[]` of `time_to_epoch` -/\ndef monDays : List Nat := [%s]\n\ndef secsPerDay : Nat := %s\ndef secsPerHour : Nat := %s\ndef secsPerMin : Nat := %s\n'
+          % (', '.join(map(str, vals)), m2.group(1), m2.group(2), m2.group(3)))
+
+
+ALL = dict(itoa_table=itoa_table, mon_days=mon_days)
 
 
 def generate(names):
